@@ -17,9 +17,11 @@ EXTENDS Integers, FiniteSets, TLC
 
 CONSTANTS Guarded
 
-Faults == {"none", "tuple_length_mismatch", "solve_for_not_tuple", "unknown_layer_type", "unknown_integrator",
+\* the wrapper checks the length of EACH per-layer tuple against len(layer_types) (three separate tests)
+LenFaults == {"len_is_static", "len_is_incompressible", "len_upper_radius"}
+Faults == {"none", "solve_for_not_tuple", "unknown_layer_type", "unknown_integrator",
            "no_layers", "too_few_slices_total", "nan_after_nondim", "too_many_solve_for", "unknown_solve_for",
-           "thin_layer", "start_not_implemented", "integration_fails", "surface_bc_fails"}
+           "thin_layer", "start_not_implemented", "integration_fails", "surface_bc_fails"} \cup LenFaults
 
 VARIABLES pc, fault, nondim, raiseOnFail,   \* configuration chosen at Init
           inputs,                            \* "orig" | "nondim"   (the caller's five arrays)
@@ -36,7 +38,7 @@ Same == UNCHANGED <<fault, nondim, raiseOnFail>>
 
 \* ---- radial_solver (Python-visible wrapper) ----
 WrapperChecks == /\ pc = "wrapper_checks" /\ Same /\ UNCHANGED <<inputs, heap>>
-                 /\ IF fault = "tuple_length_mismatch" THEN Raise("AttributeError")
+                 /\ IF fault \in LenFaults THEN Raise("AttributeError")
                     \* (`tuple solve_for` is a typed argument: a non-tuple is rejected by the call itself, before the body's own check)
                     ELSE IF fault = "solve_for_not_tuple" THEN Raise("TypeError")
                     \* intended design: every validation precedes the first allocation
